@@ -6,18 +6,61 @@
   members whatever the order and multiplicity of its arguments (`mkUnion_members`, `mkUnion_perm`, `mkUnion_dup`); which keys
   of a merged TypedDict are required / optional does not depend on the order or multiplicity of the merged dicts
   (`reqKeys_perm`, `optKeys_perm`); batches / connections / processes disappear through C09 (`adds_commute`) and stale rows through
-  C10.  NOT proved: order-independence of the whole `shrink_types` result up to union-member order (FULL STATEMENT `ShrinkPerm`);
-  it is evaluated on the model and on the implementation for every generated multiset (C04) and for whole stubs across
-  interpreter processes with different hash seeds (this check).
+  C10.  The whole `shrink_types` result depends only on the *set* of merged types, up to Python `==` (union members as a
+  set, TypedDict fields as a dict): `shrink_set`, with `shrink_perm`, `shrink_dup`, `infer_set` and the membership form
+  `shrinkPerm_holds` as corollaries (Lemmas/ShrinkPerm.lean; `Ty.eqv` is an equivalence relation: Lemmas/EqvEquiv.lean).
+  Beyond the merge — that the rewriters and the renderer map `==` types to the same text up to member order — is evaluated
+  on whole stubs across interpreter processes with different hash seeds (this check), not proved.
 -/
 import MTVerif.Lemmas.Keys
+import MTVerif.Lemmas.ShrinkPerm
 namespace MT.C14
 open MT
 
-/-- FULL STATEMENT (evaluated, not proved) -/
+/-- the membership form of order-independence (the statement of the earlier rounds, now a corollary) -/
 def ShrinkPerm : Prop :=
   ∀ (k : Nat) (ts ts' : List Ty), ts.Perm ts' → (∀ t ∈ ts, t.wf = true) →
     ∀ (sub : ClassId → ClassId → Bool) (v : Val), conforms sub true (shrink k ts) v = conforms sub true (shrink k ts') v
+
+/-- C14, merge step: `shrink_types` applied to two collections of types with the same members — whatever their order
+    (set / dict iteration order, hash seeds, memory layout, the order rows come back from the store) and whatever the
+    multiplicities (repeated rows, batches, processes) — gives types that are equal as Python compares them: the same
+    union members as a set, the same TypedDict fields as a dict, recursively. -/
+theorem shrink_set (k : Nat) (ts ts' : List Ty) (hw : ∀ t ∈ ts, t.wf = true) (h : SetEq ts ts') :
+    Ty.eqv (shrink k ts) (shrink k ts') = true := shrink_setEq k ts hw ts' h
+
+theorem shrink_perm (k : Nat) (ts ts' : List Ty) (hw : ∀ t ∈ ts, t.wf = true) (hp : ts.Perm ts') :
+    Ty.eqv (shrink k ts) (shrink k ts') = true := shrink_set k ts ts' hw (fun _ => hp.mem_iff)
+
+theorem shrink_dup (k : Nat) (t : Ty) (ts : List Ty) (hw : ∀ u ∈ t :: ts, u.wf = true) :
+    Ty.eqv (shrink k (t :: t :: ts)) (shrink k (t :: ts)) = true := by
+  apply shrink_set k _ _ (fun u hu => hw u (by simp only [List.mem_cons] at hu ⊢; rcases hu with h | h | h <;> simp [h]))
+  intro u; simp
+
+/-- the same for what is inferred from values: any order, any repetition of the observed values -/
+theorem infer_set (k : Nat) (vs vs' : List Val) (hw : wfL vs = true) (h : SetEq vs vs') :
+    Ty.eqv (infer k vs) (infer k vs') = true := by
+  unfold infer
+  rw [getTypes_eq_map, getTypes_eq_map]
+  exact shrink_set k _ _ (fun t ht => by rw [← getTypes_eq_map] at ht; exact getTypes_wf k vs hw t ht) (SetEq.map _ h)
+
+theorem shrinkPerm_holds : ShrinkPerm := by
+  intro k ts ts' hp hw sub v
+  have hw' : ∀ t ∈ ts', t.wf = true := fun t ht => hw t (hp.mem_iff.mpr ht)
+  rw [Bool.eq_iff_iff]
+  exact Ty.eqv_sound sub true _ _ (shrink_perm k ts ts' hw hp) (shrink_wf k ts' hw') v
+
+/-- Python `==` on types is an equivalence relation on well-formed types -/
+theorem eqv_equivalence :
+    (∀ t : Ty, t.wf = true → Ty.eqv t t = true) ∧
+    (∀ a b : Ty, b.wf = true → Ty.eqv a b = true → Ty.eqv b a = true) ∧
+    (∀ a b c : Ty, Ty.eqv a b = true → Ty.eqv b c = true → Ty.eqv a c = true) :=
+  ⟨Ty.eqv_refl, Ty.eqv_symm, Ty.eqv_trans⟩
+
+/-! non-vacuity: three orders / multiplicities of one set of TypedDict types merge to `==` results -/
+example : Ty.eqv (shrink 3 [.td [("a", .cls intC)] [], .td [("a", .cls strC), ("b", .cls intC)] [], .list .any])
+                 (shrink 3 [.list .any, .td [("a", .cls strC), ("b", .cls intC)] [], .td [("a", .cls intC)] [], .list .any]) = true := by
+  decide +kernel
 
 section
 variable (sub : ClassId → ClassId → Bool) (ao : Bool)
